@@ -47,7 +47,13 @@ RULE = ("random histories of 1-40 public mutating calls (constructor with/withou
         "operation (a) the caller changes the objects it handed to the call, (b) every query of DESIGN 3b is compared for every "
         "node of the universe + one absent node and filters none / random size / random order / both (all sizes 0-6, orders "
         "0-5 at the end of the history) x up_to x metadata/asdict flags, (c) the caller empties and refills every list / dict / "
-        "set the queries RETURNED and asks again. "
+        "set the queries RETURNED and asks again, (d) [extension round] the RAW tables (expose_data_structures, get_edge_list, "
+        "get_adj_dict, len, iter, str, is_weighted) are compared with the model's Store entry by entry and in their order, "
+        "get_edges is called with every combination of subhypergraph / keep_isolated_nodes / metadata / up_to (the returned "
+        "hypergraph is digested with every query; the Lean driver runs the routine as a program of public calls on the tables "
+        "and on the abstract object and checks both against the closed form), and with probability 0.3 "
+        "set_incidence_metadata (present hyperedge in permuted listing / absent / bare-node side, any node, any metadata) "
+        "followed by get_all_incidences_metadata and two get_incidence_metadata. "
         "distinct = canonical rank-level text of the history; non-trivial = at least one accepted removal AND one insertion of a "
         "(source,target) pair that is or was present; plus the EXHAUSTIVE set of all histories of <= 2 (quick) / <= 3 (thorough) "
         "calls over a 19-call alphabet on 3 nodes, weighted and unweighted (bounded exploration supporting the tie)")
@@ -68,8 +74,11 @@ ASSUMPTIONS = ["hyperedges have disjoint, duplicate-free, non-empty source and t
                "idiom, unchanged code): whether a change the caller makes to such a dictionary afterwards is seen by the "
                "object is left open, but it must not be seen in any other entry, in another object, or twice; every other "
                "returned or handed-in list / dict / set belongs to the caller alone",
-               "get_edge_list / get_adj_dict / expose_data_structures hand out the tables on purpose (paired with setters) "
-               "and are outside the property"]
+               "get_edge_list / get_adj_dict / expose_data_structures hand out the tables on purpose (paired with setters): "
+               "that they are the object's own tables is outside the property, their CONTENT is compared with the model's tables; "
+               "a difference in the raw tables alone is reported as a broken correspondence only if no public query shows it",
+               "_incidences_metadata is keyed by the canonical hyperedge and the node, the node is not checked, removals do not "
+               "prune it (an entry shows again when the hyperedge is re-inserted), clear() empties it - modelled as the code behaves"]
 TRUSTED = ["harness/c02.py renderers and PySpec (independent reference of the abstract object)",
            "copy.deepcopy gives an independent object (exercised: both objects are queried after every later operation)",
            "Python's iteration protocol: tuple(x) / sorted(x) of any of the collection types yields its elements"]
@@ -375,6 +384,95 @@ def qe_impl(h, b, e, rets=None):
 
 # ------------------------------------------------------------------------------------------------------------
 # PySpec: the abstract object of the property (rank level), written from the property's words
+
+# ------------------------------------------------------------------------------------------------------------
+# extension round: raw tables and get_edges(subhypergraph=True) AS CALLS of the Lean model
+
+def raw_impl(h, lab):
+    """`expose_data_structures()`, `get_edge_list()`, `get_adj_dict()`, `len`, `iter`, `str`, `is_weighted` rendered rank-level IN
+    THE ORDER of the tables (dict insertion order, list order): mirror of the `raw` line of lean/Driver/C02.lean.  Nothing is
+    sorted: the model's `Store` is compared with the attributes of the object entry by entry (ids, positions)."""
+    V = ImplView(lab)
+
+    def r_id(x):
+        return str(x) if isinstance(x, int) and not isinstance(x, bool) else "?" + repr(x)
+
+    def r_adj(a):
+        return j("|", "-", [V.n(x) + "=" + j(",", "-", [r_id(i) for i in ids]) for x, ids in a.items()])
+
+    def r_el(d):
+        return j(";", "-", [V.key(e) + "=" + r_id(i) for e, i in d.items()])
+
+    try:
+        with contextlib.redirect_stdout(io.StringIO()):
+            t = h.expose_data_structures()
+            parts = [
+                "w=" + ("1" if t["_weighted"] is True else "0" if t["_weighted"] is False else "?"),
+                "next=" + r_id(t["next_edge_id"]),
+                "el=" + r_el(t["_edge_list"]),
+                "rev=" + j(";", "-", [r_id(i) + "=" + V.key(e) for i, e in t["reverse_edge_list"].items()]),
+                "wt=" + j(";", "-", [r_id(i) + "=" + r_w(w) for i, w in t["_weights"].items()]),
+                "em=" + j(";", "-", [r_id(i) + "=" + r_meta_py(m) for i, m in t["edge_metadata"].items()]),
+                "as=" + r_adj(t["_adj_source"]), "at=" + r_adj(t["_adj_target"]),
+                "nm=" + j("|", "-", [V.n(x) + "=" + r_meta_py(m) for x, m in t["node_metadata"].items()]),
+                "hm=" + r_meta_py(t["hypergraph_metadata"]),
+                "gel=" + r_el(h.get_edge_list()),
+                "gas=" + r_adj(h.get_adj_dict("source")), "gat=" + r_adj(h.get_adj_dict("target")),
+                "len=" + r_id(len(h)),
+                "isw=" + ("1" if h.is_weighted() is True else "0" if h.is_weighted() is False else "?"),
+                "iter=" + r_el(dict(iter(h))),
+            ]
+            text = str(h)
+            want = "Hypergraph with {} nodes and {} edges.\nDistribution of hyperedge sizes: {}"
+            ds = h.distribution_sizes()
+            nn, ne = h.num_nodes(), h.num_edges()
+            parts.append("str=" + (f"{nn}/{ne}/{r_pairs(ds.items())}" if text == want.format(nn, ne, ds) else "?" + text[:60]))
+            if t.get("type") != "DirectedHypergraph":
+                parts.append("type=?")
+            return " ".join(p.replace(" ", "") for p in parts)
+    except Exception as ex:
+        return "exc:" + type(ex).__name__
+
+
+SUB_OPTIONS = [  # (subhypergraph, keep_isolated_nodes, metadata)
+    (True, True, False), (True, False, False), (True, True, True), (True, False, True),
+    (False, True, False), (False, False, True), (False, False, False), (False, True, True)]
+
+
+def sub_impl(h, lab, U, f, up, sub, keep, md, bsel):
+    """the real `get_edges(order, size, up_to, subhypergraph, keep_isolated_nodes, metadata)` -> ('out', text) | ('dig', digest)"""
+    V = ImplView(lab)
+    kw = dict(filt_kwargs(f, bsel))
+    # every option given explicitly or left at its default when falsy (both spellings occur)
+    if up or bsel % 2:
+        kw["up_to"] = up
+    if sub or bsel % 3 == 0:
+        kw["subhypergraph"] = sub
+    if keep or bsel % 5 == 0:
+        kw["keep_isolated_nodes"] = keep
+    if md or bsel % 7 == 0:
+        kw["metadata"] = md
+    ok, r = call(h.get_edges, **kw)
+    if not ok:
+        return ("out", "rej"), None
+    if sub:
+        if type(r).__name__ != "DirectedHypergraph" or r is h:
+            return ("out", "?" + repr(r)[:60]), None
+        try:
+            return ("dig", digest_impl(r, lab, U, [None])), r
+        except Exception as ex:
+            return ("out", "exc:" + type(ex).__name__), None
+    try:
+        if md:
+            return ("out", "emeta=" + j(";", "-", sorted(V.key(e) + "=" + r_meta_py(m) for e, m in r.items()))), None
+        return ("out", "keys=" + (V.keys(r) if isinstance(r, list) else "?" + repr(r)[:60])), None
+    except Exception as ex:
+        return ("out", "exc:" + type(ex).__name__), None
+
+
+def b01(x):
+    return "1" if x else "0"
+
 
 class Rej(Exception):
     pass
@@ -770,6 +868,10 @@ EDGES_STYLES = ("list", "tuple", "gen", "list")
 
 
 STYLE_COUNT = {}
+RAW_COUNT = [0]
+DEFERRED_RAW = []
+INC_COUNT = {"set_incidence_metadata_ok": 0, "set_incidence_metadata_rej": 0, "get_incidence_metadata": 0}
+SUB_COUNT = {"extraction_in_model": 0, "get_edges_rejected": 0, "get_edges_options": 0}
 ALIAS_COUNT = {"caller_changes_to_handed_in_objects": 0, "caller_changes_to_returned_objects": 0, "metadata_dictionaries_probed": 0}
 
 
@@ -1442,6 +1544,7 @@ def run_history(ctx, drv, hist, rng, every=True):
     problems = []
     stats = {"accepted_removal": False, "reinsertion": False, "rejected": 0, "ops": 0, "merge": False}
     seen_keys = set()
+    inc_tabs = {}                      # slot -> {((frozenset S, frozenset T), node rank): metadata tokens}
     model_lines, model_expect = ["reset"], [("out", -1, "ok")]   # (line, kind, payload)
 
     def ck(e):
@@ -1500,6 +1603,84 @@ def run_history(ctx, drv, hist, rng, every=True):
                         problems.append(("violation", f"operation {i} `{line}` changed the metadata of node {x!r} "
                                                       f"from {m} to {after.get(x)}", i))
                         break
+        # extension round: the incidence-metadata side table (`Full` of the Lean model), a side channel of the history: the calls
+        # are drawn from the history's query generator, so replays and shrunk histories repeat them
+        if a_impl == "ok":
+            if c[0] == "new":
+                inc_tabs[c[1]] = {}
+            elif c[0] == "copy":
+                inc_tabs[c[2]] = dict(inc_tabs.get(c[1], {}))
+            elif c[0] == "clear":
+                inc_tabs[c[1]] = {}
+        for sl in sorted(objs):
+            if sl not in specs or problems:
+                continue
+            V = ImplView(lab)
+            tab = inc_tabs.setdefault(sl, {})
+            scal = lab.kind in INT_KINDS
+            n_calls = (1 if rng.random() < 0.3 else 0) + (1 if final else 0)
+            for _ in range(n_calls):
+                present = sorted((sorted(k0), sorted(k1)) for (k0, k1) in specs[sl].edges)
+                if present and rng.random() < 0.55:
+                    e = relist(rng, list(rng.choice(present)), scal and rng.random() < 0.1)        # a present hyperedge, permuted listing
+                elif hist["pool"] and rng.random() < 0.8:
+                    e = relist(rng, rng.choice(hist["pool"]), scal and rng.random() < 0.2)
+                else:
+                    e = gen_edge(rng, U)
+                r = rng.randint(0, U)
+                md = gen_meta(rng, allow_none=False)
+                try:
+                    k = strict_key(e)
+                    want = "ok" if k in specs[sl].edges else "rej"
+                except Rej:
+                    k, want = None, "rej"
+                ok, _ = call(objs[sl].set_incidence_metadata, lab.edge(e), lab.lab(r), py_meta(md))
+                got = "ok" if ok else "rej"
+                txt = f"setinc {sl} {e_edge(e)} {r} {e_meta(md)}"
+                if got != want:
+                    problems.append(("violation", f"after operation {i} `{line}`: set_incidence_metadata `{txt}` "
+                                                  f"{'raised' if got == 'rej' else 'was accepted'}, the hyperedge is "
+                                                  f"{'present' if want == 'ok' else 'absent'} in the abstract object", i))
+                if got == "ok" and k is not None:
+                    tab[(k, r)] = md
+                model_lines.append(txt)
+                model_expect.append(("out", i, got))
+                INC_COUNT["set_incidence_metadata_" + got] += 1
+            if tab or final:
+                # get_all_incidences_metadata: the whole side table (entries of removed hyperedges stay, clear() empties it)
+                def r_k(k):
+                    return j(",", "_", [str(x) for x in sorted(k[0])]) + ">" + j(",", "_", [str(x) for x in sorted(k[1])])
+                want_all = j(";", "-", sorted(f"{r_k(k)}@{r}=" + j(",", "_", sorted(f"{a}:{v}" for a, v in m)) for (k, r), m in tab.items()))
+                ok, allm = call(objs[sl].get_all_incidences_metadata)
+                try:
+                    got_all = j(";", "-", sorted(f"{V.key(kk)}@{V.n(nn)}={r_meta_py(m)}" for (kk, nn), m in allm.items())) if ok else "rej"
+                except Exception:
+                    got_all = "?" + repr(allm)[:80]
+                if got_all != want_all:
+                    problems.append(("violation", f"after operation {i} `{line}` (object {sl}): get_all_incidences_metadata answers "
+                                                  f"{got_all!r}, the calls made so far give {want_all!r}", i))
+                model_lines.append(f"allinc {sl}")
+                model_expect.append(("out", i, got_all))
+                if ok and isinstance(allm, dict):
+                    allm.clear()          # the returned dict is the caller's
+                # get_incidence_metadata of one entry under a permuted listing, and of one pair drawn at random
+                asks = []
+                if tab:
+                    (k, r) = rng.choice(sorted(tab, key=repr))
+                    asks.append((relist(rng, [sorted(k[0]), sorted(k[1])], False), r))
+                asks.append((gen_edge(rng, U), rng.randint(0, U)))
+                for (e, r) in asks:
+                    k = strict_key(e)
+                    m = tab.get((k, r)) if k in specs[sl].edges else None
+                    want = "rej" if m is None else j(",", "_", sorted(f"{a}:{v}" for a, v in m))
+                    ok, v = call(objs[sl].get_incidence_metadata, lab.edge(e), lab.lab(r))
+                    got = r_meta_py(v) if ok else "rej"
+                    if got != want:
+                        problems.append(("violation", f"after operation {i} `{line}` (object {sl}): get_incidence_metadata({e_edge(e)}, {r}) "
+                                                      f"answers {got!r}, the calls made so far give {want!r}", i))
+                    model_lines.append(f"getinc {sl} {e_edge(e)} {r}")
+                    model_expect.append(("out", i, got))
+                    INC_COUNT["get_incidence_metadata"] += 1
         # queries on every live object
         for sl in sorted(objs):
             if sl not in specs:
@@ -1519,6 +1700,30 @@ def run_history(ctx, drv, hist, rng, every=True):
                 problems.append(("violation", f"after operation {i} `{line}` (object {sl}): {w}", i))
             model_lines.append(f"dig {sl} {U} " + ",".join(fkey(f) for f in filters))
             model_expect.append(("dig", i, d_impl))
+            # extension round: the tables themselves, entry by entry and in their order
+            model_lines.append(f"raw {sl}")
+            model_expect.append(("out", i, raw_impl(objs[sl], lab)))
+            RAW_COUNT[0] += 1
+            # extension round: get_edges with all its options AS A CALL of the model (subhypergraph=True builds a new object)
+            if not problems:
+                n_sub = 6 if final else 1
+                for q in range(n_sub):
+                    f = filters[(i + q) % len(filters)] if q else rng.choice(filters)
+                    up = bool((i + q) % 2) if q else rng.random() < 0.5
+                    sb, kp, wm = SUB_OPTIONS[q % 4] if (q and q < 5) else rng.choice(SUB_OPTIONS)
+                    (kind, ans), subobj = sub_impl(objs[sl], lab, U, f, up, sb, kp, wm, i + q)
+                    model_lines.append(f"sub {sl} {U} {fkey(f)} {b01(up)} {b01(sb)} {b01(kp)} {b01(wm)}")
+                    model_expect.append((kind, i, ans))
+                    SUB_COUNT["extraction_in_model" if sb and ans != "rej" else "get_edges_rejected" if ans == "rej" else "get_edges_options"] += 1
+                    if subobj is not None:
+                        # the new object is independent: its tables are fresh ones (ids from 0) - compared with the model's at the end
+                        # of its life only through the digest; changing it must not change the original
+                        before = raw_impl(objs[sl], lab)
+                        call(subobj.clear)
+                        call(subobj.add_edge, ((lab.lab(0),), (lab.lab(1),)))
+                        if raw_impl(objs[sl], lab) != before:
+                            problems.append(("violation", f"after operation {i} `{line}` (object {sl}): changing the hypergraph returned by "
+                                                          f"get_edges(subhypergraph=True) changed the original", i))
             # one hyperedge asked in a shuffled listing, one absent / reversed
             for e in ([relist(rng, rng.choice(hist["pool"]), lab.kind in INT_KINDS and rng.random() < 0.15)] if hist["pool"] else []):
                 for ee in (e, [e[1], e[0]]):
@@ -1552,7 +1757,10 @@ def run_history(ctx, drv, hist, rng, every=True):
                 got = got[:got.index(" !spec:")]
             if kind in ("out", "qe"):
                 if got != want:
-                    problems.append(("disagree", f"`{ln}`: model answers {got!r}, implementation {want!r}", i))
+                    # a difference in the raw tables alone (private ids, positions) is kept back: the run goes on looking for a public
+                    # query that shows it (a failing input); if none turns up it is reported as a broken correspondence at the end
+                    problems.append(("rawdiff" if ln.startswith("raw ") else "disagree",
+                                     f"`{ln}`: model answers {got!r}, implementation {want!r}", i))
             else:
                 dm = dict(it.split("=", 1) for it in got.split(" ")) if "=" in got else {}
                 if dm != want:
@@ -1676,6 +1884,18 @@ def _check_history(ctx, drv, hist, seed):
         ctx.extra["collections_" + k] = v
     for k, v in ALIAS_COUNT.items():
         ctx.extra[k] = v
+    ctx.extra["raw_table_comparisons"] = RAW_COUNT[0]
+    for k, v in SUB_COUNT.items():
+        ctx.extra[k] = v
+    for k, v in INC_COUNT.items():
+        ctx.extra[k] = v
+    rawdiffs = [p for p in problems if p[0] == "rawdiff"]
+    problems = [p for p in problems if p[0] != "rawdiff"]
+    if rawdiffs:
+        ctx.count("raw_table_differences")
+        if not DEFERRED_RAW:
+            DEFERRED_RAW.append(({"U": hist["U"], "kind": hist["kind"], "cmds": hist["cmds"], "pool": hist["pool"], "seed": seed,
+                                  "salt": hist.get("salt"), "lines": [encode(c) for c in hist["cmds"]]}, rawdiffs[0][1]))
     if not problems and seed % 5 == 0:
         problems = equivariance(ctx, hist, seed)
         ctx.count("equivariance_runs")
@@ -1758,11 +1978,20 @@ def run(ctx):
         k = ctx.scale(2, 3)
         ctx.extra["exhaustive_histories"] = exhaustive(ctx, drv, k)
         ctx.extra["exhaustive_scope"] = f"all histories of <= {k} calls over an {len(EXH_ALPHABET)}-call alphabet, 3 nodes, both weightedness"
+    report_deferred_raw(ctx)
     if drv is not None:
         ctx.extra["model_lines_note"] = "one `dig` line carries every query for every node and filter of that step"
+
+
+def report_deferred_raw(ctx):
+    """the model's tables and the object's tables differed somewhere and no public query showed a consequence"""
+    if DEFERRED_RAW and not ctx.too_many(1):
+        case, what = DEFERRED_RAW[0]
+        ctx.disagree(case, "raw tables (expose_data_structures / get_edge_list / get_adj_dict / len / iter / str): " + what)
 
 
 def replay(ctx, case):
     drv = ctx.driver() if ctx.model_available else None
     hist = {"U": case["U"], "kind": case["kind"], "cmds": case["cmds"], "pool": case.get("pool", []), "salt": case.get("salt")}
     check_history(ctx, drv, hist, case.get("seed", 0))
+    report_deferred_raw(ctx)
